@@ -104,6 +104,39 @@ CHECKS.update({
         design_ref="6/C19"),
 })
 
+CHECKS.update({
+    "C09": dict(
+        text="Theorems about the R instance of the hand-written FlowProperties model (any table with increasing pressure/pseudopressure and "
+             "positive columns): the constructor's result, scaled pseudopressure strictly increasing with value m_i at p_i, diffusivity 1/(c mu) "
+             "at nodes, every real lookup within the table's positive [min,max], user-alpha branch m_i = 1 at nodes and in [1, (a+b)^2/4ab] "
+             "between (AM-HM on the common segment), p_i outside rejected, rescaling maps p_frac->0, p_i->1. numpy.interp's segment/NaN rules "
+             "are modelled and proved equal to searchsorted-left over the reals. The float instance is run against FlowProperties / "
+             "FlowPropertiesSimple / rescale_pseudopressure; non-mutation and all 64 column subsets x 2 classes are checked on the implementation.",
+        technique="Coq proof (interpolation lemmas by list induction) over hand model + float-instance correspondence + exhaustive column-subset enumeration",
+        design_ref="6/C09"),
+    "C14": dict(
+        text="Theorems on relative_permeabilities as regenerated from flowproperties.py (validation chain + Corey expressions, one record): every "
+             "admissible call is accepted, each kr is in [0,k_max] (so never NaN: the base is proved >= 0), exactly 0 at/below residual, the final "
+             "clamp is the identity, monotone in the phase's own saturation; each of the seven guards rejects. The proved closed form is "
+             "kernel-certified against the implementation at sampled points; ranges/monotonicity/rejections/two-phase helper are exercised on it.",
+        technique="Coq proof (lra/monotonicity of Rpower) over py2coq-translated model + certified point evaluation",
+        design_ref="6/C14"),
+    "C15": dict(
+        text="Theorems on pseudopressure_threephase as regenerated from flowproperties.py: the integration variable is the pressure column and the "
+             "integrand is, row by row, the total mass mobility transcribed independently from docs/background.md; hence zero first, strictly "
+             "increasing where mobility is positive, scaling with a constant. (The original transposed call fails the first lemma.) Downstream "
+             "scaled-pseudopressure claims follow from C09's theorems and are exercised through FlowPropertiesTwoPhase.",
+        technique="Coq proof (list induction, trapezoid lemmas) over py2coq-translated model vs independent documented spec",
+        design_ref="6/C15"),
+    "C16": dict(
+        text="Theorems on compressibility_combined_func / lambda_combined_func / alpha_multiphase as regenerated from flowproperties.py, for "
+             "arbitrary table functions: c is exactly the central one-psi difference of the documented storage function, vanishes for "
+             "pressure-independent tables, is linear in porosity, equals the derivative where storage is affine across the step; mobility is the "
+             "documented sum; diffusivity is their quotient. Checked numerically against an independent transcription on shipped and synthetic tables.",
+        technique="Coq proof (ring/field) over py2coq-translated model vs independent documented spec",
+        design_ref="6/C16"),
+})
+
 NOT_APPLICABLE = {}
 
 
